@@ -111,6 +111,10 @@ func checkC06(tier, replay string) int {
 
 // runS6Policy: conditional bodies of every length, in several positions.
 func runS6Policy(r *compileRun, tier string) {
+	runS6PolicyWith(func(scope string, a *refsem.Arch, p *seccomp.Policy, o engine.Options) { r.one(scope, a, p, o) }, tier)
+}
+
+func runS6PolicyWith(one func(scope string, a *refsem.Arch, p *seccomp.Policy, o engine.Options), tier string) {
 	a := refsem.ArchByName("x86_64")
 	n := s3Names(a) // read write execve
 	// 4-instruction conditions all test the low word of argument 0 against distinct values and the 5-instruction
@@ -169,7 +173,7 @@ func runS6Policy(r *compileRun, tier string) {
 			p.Syscalls = append(p.Syscalls, seccomp.SyscallGroup{Action: seccomp.ActionTrap, Names: []string{n[2], "close"}, NamesWithCondtions: []seccomp.NameWithConditions{
 				{Name: n[1], Conditions: seccomp.ArgumentConditions{{Argument: 0, Operation: seccomp.Equal, Value: 99}}}}})
 		}
-		r.one("S6/lists", a, p, engine.Options{MaxEvents: 1 << 22})
+		one("S6/lists", a, p, engine.Options{MaxEvents: 1 << 22})
 	})
 	// one list with 1..70 conditions (far noMatch / far action)
 	parallelFor(70, func(i int) {
@@ -190,7 +194,7 @@ func runS6Policy(r *compileRun, tier string) {
 				g.NamesWithCondtions = append(g.NamesWithCondtions, seccomp.NameWithConditions{Name: n[0], Conditions: seccomp.ArgumentConditions{{Argument: 0, Operation: seccomp.Equal, Value: 7}}})
 			}
 			p := &seccomp.Policy{DefaultAction: seccomp.ActionKillProcess, Syscalls: []seccomp.SyscallGroup{g, {Action: seccomp.ActionAllow, Names: []string{n[2]}}}}
-			r.one("S6/longlist", a, p, engine.Options{MaxEvents: 1 << 24})
+			one("S6/longlist", a, p, engine.Options{MaxEvents: 1 << 24})
 		}
 	})
 }
